@@ -166,7 +166,87 @@ S_SEG = Stream(
     generate=gen_seg, run_impl=run_seg, coq_case=with_matrix(coq_case), oracle=with_matrix(oracle), shrink=shrink_seg,
     nontrivial=lambda c, o: len(c['K']) >= 4, klass=lambda c, o: 'n=%d,mode=%d' % (len(c['K']), c['mode']))
 
-STREAMS = [S_SEG, Stream(
+# ------------------------------------------------------------------ stream stops: findStopsGlobal builds a reward matrix and maximises
+
+def gen_stops(rng, n, tier):
+    out = []
+    for _ in range(n):
+        k = rng.randint(4, 10)
+        xs = []; x = 0
+        for _ in range(k):                              # a receiver on a straight road: it lingers (steps of 0 / 1) or moves on (steps of 20 .. 40)
+            x += rng.choice([0, 1, -1, 1, 0, 25, 40, -30])
+            xs.append(x)
+        zs = [rng.choice([0, 0, 0, 3, 50, -20]) for _ in range(k)]        # heights (a lift, a ramp): the size of a stop is planimetric
+        ts = [0]
+        for _ in range(k - 1):
+            ts.append(ts[-1] + rng.choice([5, 10, 10, 20, 60]))
+        out.append({'x': xs, 'z': zs, 't': ts, 'diameter': rng.choice([2.5, 4.5, 10.5]), 'duration': rng.choice([7.5, 15.5, 25.5, 65.5])})
+    return out
+
+
+def stops_matrix(case):
+    # as documented in findStopsGlobal: C[i, j] = (j - i)^2 when the enclosing circle of p_i .. p_(j-1) is smaller than the diameter and they span more
+    # than the duration, 0 otherwise (i < n - 2, i < j < n - 1), symmetrised; the fixes are collinear, so the enclosing circle's diameter is their extent
+    xs, ts = case['x'], case['t']
+    n = len(xs)
+    C = [[0] * n for _ in range(n)]
+    for i in range(n - 2):
+        for j in range(i + 1, n - 1):
+            seg = xs[i:j]
+            if max(seg) - min(seg) < case['diameter'] and ts[j - 1] - ts[i] > case['duration']:
+                C[i][j] = (j - i) ** 2
+    return [[C[i][j] + C[j][i] for j in range(n)] for i in range(n)]
+
+
+def run_stops(case):
+    import sys, tracklib.algo.segmentation
+    from tracklib.core import ObsTime, ENUCoords, Obs, Track
+    sg = sys.modules['tracklib.algo.segmentation']
+    tr = Track([Obs(ENUCoords(float(x), 0.0, float(z)), ObsTime.readUnixTime(1000 + t)) for x, z, t in zip(case['x'], case['z'], case['t'])])
+    st = sg.findStopsGlobal(tr, case['diameter'], case['duration'], 1, False)
+    return {'stops': [[int(st['id_ini', i]), int(st['id_end', i]), int(st['nb_points', i])] for i in range(st.size())]}
+
+
+def coq_stops(case, obs):
+    if 'exc' in obs:
+        return None
+    C = stops_matrix(case)
+    return '(%d%%nat, %s, %s)' % (len(C) - 1, coq_list(coq_list(q(v) for v in r) for r in C), q(sum(s[2] ** 2 for s in obs['stops'])))
+
+
+def oracle_stops(case, obs):
+    if 'exc' in obs:
+        return 'findStopsGlobal raised %s' % obs['exc']
+    C = stops_matrix(case)
+    N = len(C) - 1
+    for a, b, nb in obs['stops']:
+        if not (0 <= a <= b < len(case['x'])) or nb != b - a + 1 or C[a][b + 1] != nb ** 2:
+            return 'stop over fixes %d..%d (%d points) is not a stop under the documented criterion (extent below %r, more than %r s)' % (a, b, nb, case['diameter'], case['duration'])
+    if any(s1[1] >= s2[0] for s1, s2 in zip(obs['stops'], obs['stops'][1:])):
+        return 'stops overlap: %r' % obs['stops']
+    got = sum(s[2] ** 2 for s in obs['stops'])
+    best = 0
+    inner = list(range(1, N - 1))
+    for k in range(len(inner) + 1):
+        for mid in itertools.combinations(inner, k):
+            best = max(best, total(C, [0] + list(mid) + [N - 1]))
+    if got != best:
+        return 'the stops %r realise a reward of %r, the maximum of the documented criterion over all partitions is %r (x %r, t %r, diameter %r, duration %r)' % (obs['stops'], got, best, case['x'], case['t'], case['diameter'], case['duration'])
+    return None
+
+
+S_STOPS = Stream(
+    name='stops', budget={'quick': 300, 'thorough': 3000},
+    rule=('findStopsGlobal on collinear tracks of 4..10 fixes (the enclosing circle of collinear fixes has their extent for diameter, so the documented reward matrix is computed exactly) '
+          'with heights that vary by more than the diameter, diameters and durations at half-integers (no ties); the reward realised by the returned stops is compared with the model\'s '
+          'maximum on the documented matrix and with brute force; non-trivial = at least one stop'),
+    imports=IMPORTS, case_type='nat * list (list Q) * Q',
+    check_def='''Definition cm (m : list (list Q)) : tab Q := fun i j => nth j (nth i m []) 0.
+Definition ok (c : nat * list (list Q) * Q) : bool := let '(N, m, got) := c in Qeq_bool (chain_cost (cm m) (optimal_partition false N (cm m))) got.''',
+    generate=gen_stops, run_impl=run_stops, coq_case=coq_stops, oracle=oracle_stops,
+    nontrivial=lambda c, o: bool(o.get('stops')), klass=lambda c, o: 'stops=%d' % len(o.get('stops', [])))
+
+STREAMS = [S_SEG, S_STOPS, Stream(
     name='partition', budget={'quick': 500, 'thorough': 3000},
     rule=('symmetric cost matrices with 3..10 rows over small integer / dyadic value sets, both modes (thorough adds every {0,1,2}-valued matrix with 3 and 4 rows '
           'and every {0,1}-valued one with 5 rows - exhaustive); observed: the list returned by optimalPartition(C, mode, False); brute force over all index lists as oracle; '
